@@ -98,6 +98,8 @@ func (m *MLDv1MulticastListenerQueryMessage) DecodeFromBytes(data []byte, df gop
 		return err
 	}
 
+	// do not keep the payload of an earlier decode
+	m.Payload = nil
 	if len(data) > 20 {
 		m.Payload = data[20:]
 	}
